@@ -681,7 +681,8 @@ func TestPipeline(t *testing.T) {
 				a.Patches = gen.ValidPatches(t, 3, gen.PatchOpts{})
 				a.NextUpdate, a.NextRecovery = asm.Commit(cl.upd, code), asm.Commit(cl.rec, code)
 				cr := &asm.Create{Code: code, RecoveryCommit: a.NextRecovery, Delta: asm.Delta(a.NextUpdate, a.Patches),
-					AnchorOrigin: rapid.SampledFrom([]interface{}{nil, "origin.example"}).Draw(t, "anchorOrigin")}
+					AnchorOrigin: rapid.SampledFrom([]interface{}{nil, "origin.example"}).Draw(t, "anchorOrigin"),
+					DIDType:      rapid.SampledFrom([]string{"", "", "0001"}).Draw(t, "didType")}
 				a.Request, a.LongForm = cr.Bytes(), cr.LongForm(ns)
 				cl.suffix = cr.Suffix()
 			} else {
